@@ -11,3 +11,4 @@ INVARIANT OneRecomputation
 INVARIANT Export
 PROPERTY HitRunsNothing
 PROPERTY EvictsLeastRecent
+PROPERTY OtherFunctionUntouched
